@@ -118,6 +118,23 @@ Theorem C18_v4_never_mapped : forall ip p, classify (SV4 ip p) = MIp (SV4 ip p).
 Proof. exact v4_never_mapped. Qed.
 Print Assumptions C18_v4_never_mapped.
 
+(* What the monitor accepting an OBSERVED trace means (any trace, not only the model's):
+   on each map two gets have the same key iff they returned the same address ... *)
+Theorem C18_monitor_sound_gets : forall t kd k1 c1 x1 k2 c2 x2,
+  trace_ok [] t = true ->
+  In (OpGet kd k1 c1, RAddr x1) t -> In (OpGet kd k2 c2, RAddr x2) t ->
+  (k1 = k2 <-> x1 = x2).
+Proof. exact monitor_sound_gets. Qed.
+Print Assumptions C18_monitor_sound_gets.
+
+(* ... and a lookup of an address an earlier get returned answers that get's key. *)
+Theorem C18_monitor_sound_lookup : forall t1 t2 kd key c a r,
+  trace_ok [] (t1 ++ (OpLookup kd a, RKey r) :: t2) = true ->
+  In (OpGet kd key c, RAddr (private_socket_addr a)) t1 ->
+  r = Some key.
+Proof. exact monitor_sound_lookup. Qed.
+Print Assumptions C18_monitor_sound_lookup.
+
 (* The model's own output passes the monitor for EVERY input. *)
 Theorem C18_model_satisfies_monitor : forall i, monitor i (model i) = true.
 Proof. exact model_satisfies_monitor. Qed.
